@@ -282,7 +282,15 @@ impl<'buf> ModuleReader<'buf> {
             .find(|h| h.p_type == elf::program_header::PT_DYNAMIC)
             .ok_or(Error::NoDynamicSection)?;
 
-        let dynamic_section = self.read_segment(dynamic_segment_header)?;
+        // In process memory, segment addresses are relative to the virtual address the image
+        // was linked at (the address that file offset 0 is loaded to), which is not always 0.
+        let link_base = program_headers
+            .iter()
+            .find(|h| h.p_type == elf::program_header::PT_LOAD && h.p_offset == 0)
+            .map(|h| h.p_vaddr)
+            .unwrap_or(0);
+
+        let dynamic_section = self.read_segment(dynamic_segment_header, link_base)?;
 
         let mut soname_strtab_offset = None;
         let mut strtab_addr = None;
@@ -303,8 +311,14 @@ impl<'buf> ModuleReader<'buf> {
             (Some(addr), Some(size), Some(offset)) => {
                 if offset < size {
                     let strtab_offset = if self.module_memory.is_process_memory() {
-                        // If loaded in memory, the address will be altered to be absolute.
-                        self.module_memory.absolute(addr)
+                        // If loaded in memory, the address will be altered to be absolute;
+                        // otherwise it is still a virtual address relative to the link base.
+                        let relocated = self.module_memory.absolute(addr);
+                        if relocated != addr {
+                            relocated
+                        } else {
+                            addr.wrapping_sub(link_base)
+                        }
                     } else {
                         // In a file image the string table lives at the file offset that the
                         // containing loadable segment maps to its virtual address.
@@ -426,9 +440,13 @@ impl<'buf> ModuleReader<'buf> {
         Ok(build_id_from_bytes(&text_data))
     }
 
-    fn read_segment(&mut self, header: &elf::ProgramHeader) -> Result<Buf<'buf>, Error> {
+    fn read_segment(
+        &mut self,
+        header: &elf::ProgramHeader,
+        link_base: u64,
+    ) -> Result<Buf<'buf>, Error> {
         let (offset, size) = if self.module_memory.is_process_memory() {
-            (header.p_vaddr, header.p_memsz)
+            (header.p_vaddr.wrapping_sub(link_base), header.p_memsz)
         } else {
             (header.p_offset, header.p_filesz)
         };
